@@ -41,7 +41,9 @@ D1_TEXT = "arguments to dbus_message_set_reply_serial() were incorrect"
 
 def script_line(s):
     c = s["cfg"]
-    return "script %d %d %d %d %s" % (rg.UID, c["max_incomplete"], c["auth_timeout"], c["max_message_size"], " ".join(s["events"]))
+    x = c.get("extra_limits", {})
+    return "script2 %d %d %d %d %d %d %s" % (rg.UID, c["max_incomplete"], c["auth_timeout"], c["max_message_size"],
+                                           x.get("max_connections_per_user", 256), x.get("max_match_rules_per_connection", 512), " ".join(s["events"]))
 
 
 def parse_events(tokens):
@@ -136,8 +138,8 @@ def run(ctx):
                 if f.endswith(".json"):
                     scripts += json.load(open(os.path.join(cdir, f)))
         n_plain, n_flood, n_timed, n_blast = (1800, 16, 18, 10) if tier == "quick" else (16000, 160, 220, 80)
-        n_close = 60 if tier == "quick" else 1500
-        gen = rg.generate(rnd, n_plain, n_flood, n_timed, n_blast, n_close)
+        n_close, n_slots = (60, 24) if tier == "quick" else (1500, 500)
+        gen = rg.generate(rnd, n_plain, n_flood, n_timed, n_blast, n_close, n_slots)
         if tier != "quick":
             big = rg.gen_quota(rnd, n=34000, cfg=rg.CFG_MAIN)      # the same with the DEFAULT max_outgoing_bytes (127 MiB)
             big["kind"] = "quota:default-limit"
